@@ -3,6 +3,7 @@ import WV.Gen.PyIRTr
 import WV.Proofs.PyIR_Dil
 import WV.Proofs.C06
 import WV.Proofs.C06_Cons
+import WV.Proofs.C06_Thresh
 
 set_option linter.unusedSimpArgs false
 set_option linter.unusedVariables false
@@ -270,5 +271,178 @@ theorem records_loop (E : C06.Env) (did g : Nat) (env : Env) (hext : env.ext = e
               callM_decrypt _ E did env hext c.isSender c.nextReceiveNonce, hext, hrn, hrb, decOut, h3, h4, C06.decryptRecord, Gen.C06.NONCE_SIZE,
               C06.Err.name, hcn, hwn, C06.dataReceivedRECORDS, C06.parseFrame]
             refine ⟨by rel_conn, fun a q1 q2 q3 => by simp [get_set, q1, q2, q3]⟩
+
+/-! ## consumer mode, `close`, `connectionLost` -/
+
+/-- the calls of `_writeToConsumer(record)` on consumer `k` -/
+def wtcCalls (k : C06.Consumer) (r : Bytes) : List Call :=
+  ⟨"_consumer", "write", [.bytes r]⟩ ::
+    (match k.expected with
+     | some n => if k.written + r.length ≥ n then
+         [⟨"_consumer", "unregisterProducer", []⟩,
+          ⟨"$v", "callback", [.ref "ConsumerDeferred" k.cid, .int (k.written + r.length)]⟩]
+       else []
+     | none => [])
+
+theorem callM_writeToConsumer (fuel : Nat) (E : C06.Env) (h : Store) (c : C06.Conn) (R : RelConn E h c)
+    (k : C06.Consumer) (hk : c.app.consumer = some k) (hcb : k.cb = none) (hfc : c.app.fcConsumer = false) (r : Bytes)
+    (cs : List Call) :
+    let o := callM (envT E) tbl_Connection (fuel + 2) "_writeToConsumer" [.bytes r] h cs
+    let a' := (C06.writeToConsumer c.app k r false).1
+    RelConn E o.1 { c with app := a' } ∧ (C06.writeToConsumer c.app k r false).2 = [] ∧
+      o.2.1 = cs ++ wtcCalls k r ∧ o.2.2 = .ok .none := by
+  obtain ⟨hb, hsn, hrn, hsb, hrb, htr, hin, hw, hc⟩ := R
+  obtain ⟨cid, written, expected, cb⟩ := k
+  simp only at hcb
+  subst hcb
+  rw [hk] at hc
+  obtain ⟨hc1, hc2, hc3, hc4⟩ := hc
+  simp only at hc1 hc2 hc3 hc4
+  intro o a'
+  simp only [o, a']
+  cases expected with
+  | none =>
+    simp only [encExpected] at hc3 hc4
+    tr_eval [m_Connection__writeToConsumer, hc1, hc2, hc3, C06.writeToConsumer, C06.writeEvents, hfc, wtcCalls]
+    refine ⟨?_, ?_, ?_, ?_, ?_, ?_, ?_, ?_, ?_⟩ <;> simp [get_set, RelCons, encExpected, *]
+  | some n =>
+    simp only [encExpected] at hc3 hc4
+    by_cases hge : written + r.length ≥ n
+    · have hge' : (n : Int) ≤ (written : Int) + (r.length : Int) := by omega
+      tr_eval [m_Connection__writeToConsumer, m_Connection_disconnectConsumer, hc1, hc2, hc3, hc4, C06.writeToConsumer,
+        C06.writeEvents, hfc, wtcCalls, hge, hge', C06.consumerDone, C06.disconnectConsumer]
+      refine ⟨?_, ?_, ?_, ?_, ?_, ?_, ?_, ?_, ?_⟩ <;> simp [get_set, RelCons, encExpected, *]
+    · have hge' : ¬ (n : Int) ≤ (written : Int) + (r.length : Int) := by omega
+      tr_eval [m_Connection__writeToConsumer, hc1, hc2, hc3, hc4, C06.writeToConsumer, C06.writeEvents, hfc, wtcCalls, hge, hge']
+      refine ⟨?_, ?_, ?_, ?_, ?_, ?_, ?_, ?_, ?_⟩ <;> simp [get_set, RelCons, encExpected, *]
+
+
+/-- the call `d.errback(error.ConnectionClosed())` on the read Deferred of reader `d` -/
+def errCall (d : C06.Reader) : Call := ⟨"$v", "errback", [encReader d, .obj "ConnectionClosed" []]⟩
+
+def errCond : Expr := .attr "_waiting_reads"
+def errBody : List Stmt :=
+  [.popleft (some "d") "_waiting_reads", .emitV (.var "d") "errback" [(.construct "ConnectionClosed" [])]]
+
+/-- `while self._waiting_reads: d = popleft(); d.errback(ConnectionClosed())` for every number of waiting reads: each is
+    failed, oldest first, the deque ends empty, nothing else is touched -/
+theorem errback_loop (env : Env) (hra : env.raises = fun _ => none) (hre : env.reenter = fun _ => []) (self : SelfCall) (f : Nat) :
+    ∀ (ws : List C06.Reader) (k : Nat) (h l : Store) (cs : List Call),
+      h.get "_waiting_reads" = some (.list (ws.map encReader)) → ws.length < k →
+      let w := whileLoop (fun s => evalE env s errCond) (execB env self f errBody) k ⟨h, l, cs⟩
+      w.2 = .norm ∧ w.1.calls = cs ++ ws.map errCall ∧ w.1.heap.get "_waiting_reads" = some (.list []) ∧
+        (∀ a, "_waiting_reads" ≠ a → w.1.heap.get a = h.get a) := by
+  intro ws
+  induction ws with
+  | nil =>
+    intro k h l cs hw hk
+    obtain ⟨k, rfl⟩ : ∃ k', k = k' + 1 := ⟨k - 1, by omega⟩
+    tr_eval_nc [whileLoop, errCond, hw]
+  | cons d rest ih =>
+    intro k h l cs hw hk
+    obtain ⟨k, rfl⟩ : ∃ k', k = k' + 1 := ⟨k - 1, by omega⟩
+    simp only [whileLoop]
+    generalize hrest : whileLoop _ _ k = R at ih ⊢
+    tr_eval_nc [errCond, errBody, hw, encReader, hra, hre]
+    subst hrest
+    obtain ⟨i1, i2, i3, i4⟩ := ih k (h.set "_waiting_reads" (Val.list (List.map encReader rest))) (l.set "d" (Val.ref "Deferred" d.id))
+      (cs ++ [errCall d]) (by simp [get_set]) (by simp at hk; omega)
+    simp only [errCall, encReader] at i1 i2 i3 i4 ⊢
+    refine ⟨i1, ?_, i3, fun a ha => ?_⟩
+    · rw [i2]; simp
+    · rw [i4 a ha]; simp [get_set, ha]
+
+theorem foldl_failRead_fields : ∀ (ws : List C06.Reader) (a : C06.App),
+    (ws.foldl C06.failRead a).inbound = a.inbound ∧ (ws.foldl C06.failRead a).waiting = a.waiting ∧
+    (ws.foldl C06.failRead a).consumer = a.consumer := by
+  intro ws
+  induction ws with
+  | nil => intro a; exact ⟨rfl, rfl, rfl⟩
+  | cons d rest ih =>
+    intro a
+    simp only [List.foldl_cons]
+    obtain ⟨i1, i2, i3⟩ := ih (C06.failRead a d)
+    rw [i1, i2, i3]
+    unfold C06.failRead
+    cases d.cb <;> simp [C06.App.emit]
+
+theorem close_shape : m_Connection_close = ([], [.emitA "transport" "loseConnection" [], .while errCond errBody]) := rfl
+
+def lostTail : List Stmt :=
+  match m_Connection_connectionLost.2 with
+  | _ :: _ :: t => t
+  | _ => []
+
+theorem connectionLost_shape : m_Connection_connectionLost =
+    (["reason"], .emitG "self" "setTimeout" [.none] :: .while errCond errBody :: lostTail) := rfl
+
+
+/-! ## `_deliverRecords` -/
+
+def dlvCond : Expr := .and (.attr "_inbound_records") (.attr "_waiting_reads")
+def dlvBody : List Stmt :=
+  [.popleft (some "r") "_inbound_records", .popleft (some "d") "_waiting_reads", .emitV (.var "d") "callback" [(.var "r")]]
+
+theorem deliver_shape : m_Connection__deliverRecords = ([], [.while dlvCond dlvBody]) := rfl
+
+theorem settle_deliver_step (a : C06.App) (r : Bytes) (rs : List Bytes) (d : C06.Reader) (ds : List C06.Reader)
+    (hi : a.inbound = r :: rs) (hw : a.waiting = d :: ds) (hcb : d.cb = none) :
+    C06.settle a [.deliver] =
+      C06.settle { a with inbound := rs, waiting := ds, log := a.log ++ [.assigned d.id r],
+                          storedReads := a.storedReads ++ [(d.id, some r)] } [.deliver] := by
+  rw [C06.settle_step]
+  simp [C06.appStep, hi, hw, C06.fireRead, hcb, C06.App.emit]
+
+theorem settle_deliver_noinb (a : C06.App) (hi : a.inbound = []) : C06.settle a [.deliver] = a := by
+  rw [C06.settle_step]
+  simp [C06.appStep, hi, C06.settle_nil]
+
+theorem deliver_loop (env : Env) (hra : env.raises = fun _ => none) (hre : env.reenter = fun _ => []) (self : SelfCall) (f : Nat) :
+    ∀ (inb : List Bytes) (ws : List C06.Reader) (k : Nat) (h l : Store) (cs : List Call) (a : C06.App),
+      a.inbound = inb → a.waiting = ws → (∀ d ∈ ws, d.cb = none) →
+      h.get "_inbound_records" = some (.list (inb.map Val.bytes)) →
+      h.get "_waiting_reads" = some (.list (ws.map encReader)) → inb.length < k →
+      let w := whileLoop (fun s => evalE env s dlvCond) (execB env self f dlvBody) k ⟨h, l, cs⟩
+      let m := C06.settle a [.deliver]
+      w.2 = .norm ∧ w.1.heap.get "_inbound_records" = some (.list (m.inbound.map Val.bytes)) ∧
+        w.1.heap.get "_waiting_reads" = some (.list (m.waiting.map encReader)) ∧
+        (∀ x, "_inbound_records" ≠ x → "_waiting_reads" ≠ x → w.1.heap.get x = h.get x) ∧
+        (∃ evs, m.log = a.log ++ evs ∧ w.1.calls.map absTCall = cs.map absTCall ++ evs.map some) ∧
+        m.consumer = a.consumer := by
+  intro inb
+  induction inb with
+  | nil =>
+    intro ws k h l cs a hi hw hcb hhi hhw hk
+    obtain ⟨k, rfl⟩ : ∃ k', k = k' + 1 := ⟨k - 1, by omega⟩
+    rw [settle_deliver_noinb a hi]
+    tr_eval_nc [whileLoop, dlvCond, hhi, hhw, hi, hw]
+  | cons r rs ih =>
+    intro ws k h l cs a hi hw hcb hhi hhw hk
+    obtain ⟨k, rfl⟩ : ∃ k', k = k' + 1 := ⟨k - 1, by omega⟩
+    cases ws with
+    | nil =>
+      rw [C06.settle_deliver_idle a hw]
+      tr_eval_nc [whileLoop, dlvCond, hhi, hhw, hi, hw]
+    | cons d ds =>
+      have hd : d.cb = none := hcb d (by simp)
+      rw [settle_deliver_step a r rs d ds hi hw hd]
+      simp only [whileLoop]
+      generalize hrest : whileLoop _ _ k = R
+      tr_eval_nc [dlvCond, dlvBody, hhi, hhw, encReader, hra, hre]
+      subst hrest
+      obtain ⟨i1, i2, i3, i4, ⟨evs, i5, i5'⟩, i6⟩ := ih ds k
+        ((h.set "_inbound_records" (Val.list (List.map Val.bytes rs))).set "_waiting_reads" (Val.list (List.map encReader ds)))
+        ((l.set "r" (Val.bytes r)).set "d" (Val.ref "Deferred" d.id))
+        (cs ++ [⟨"$v", "callback", [Val.ref "Deferred" d.id, Val.bytes r]⟩])
+        { a with inbound := rs, waiting := ds, log := a.log ++ [.assigned d.id r],
+                 storedReads := a.storedReads ++ [(d.id, some r)] } rfl rfl (fun x hx => hcb x (by simp [hx]))
+        (by simp [get_set]) (by simp [get_set]) (by simp at hk; omega)
+      simp only [encReader] at i1 i2 i3 i4 i5 i5' i6 ⊢
+      refine ⟨i1, i2, i3, fun x x1 x2 => ?_, ⟨.assigned d.id r :: evs, ?_, ?_⟩, i6⟩
+      · rw [i4 x x1 x2]; simp [get_set, x1, x2]
+      · rw [i5]; simp
+      · rw [i5']; simp [absTCall]
+
+
 
 end WV.Proofs.PyIRTr
